@@ -22,6 +22,13 @@ def sh(cmd, **kw):
     return subprocess.run(cmd, shell=True, text=True, capture_output=True, **kw)
 
 
+def patch_path(name):
+    p = os.path.join(SEEDED, name, 'patch.diff')
+    if os.path.exists(p):
+        return p
+    return os.path.join(ROOT, 'mutants', name + '.diff')
+
+
 def scratch(name, patch=True):
     d = '/tmp/sv/%s-%d' % (name, os.getpid())
     os.makedirs('/tmp/sv', exist_ok=True)
@@ -29,7 +36,7 @@ def scratch(name, patch=True):
     if r.returncode:
         raise SystemExit(r.stderr)
     if patch:
-        r = sh('git -C %s apply %s' % (d, os.path.join(SEEDED, name, 'patch.diff')))
+        r = sh('git -C %s apply %s' % (d, patch_path(name)))
         if r.returncode:
             drop(d)
             raise SystemExit('patch does not apply: ' + r.stderr)
@@ -103,12 +110,15 @@ def run(name, prop, extra):
 
 
 def matrix(names):
-    names = names or sorted(os.listdir(SEEDED))
+    names = names or (sorted(os.listdir(SEEDED)) + sorted(f[:-5] for f in os.listdir(os.path.join(ROOT, 'mutants')) if f.endswith('.diff')))
     for n in names:
         mp = os.path.join(SEEDED, n, 'meta.json')
-        if not os.path.exists(mp):
+        if os.path.exists(mp):
+            meta = json.load(open(mp))
+        elif os.path.exists(os.path.join(ROOT, 'mutants', n + '.diff')):
+            meta = {'property': n.split('-')[0]}
+        else:
             continue
-        meta = json.load(open(mp))
         rc, out = run(n, meta['property'], ['--tier', 'quick'])
         keys = sorted(set(l.split('key=')[1].split(' ')[0] for l in out.splitlines() if l.startswith('VIOLATION')))
         print('%-28s %s rc=%d %s' % (n, meta['property'], rc, 'CAUGHT ' + ','.join(keys) if rc == 1 else 'MISSED'))
